@@ -13,6 +13,7 @@ int main(int argc, char** argv) {
     std::string tier = argc > 1 ? argv[1] : "quick";
     std::string only = argc > 3 ? argv[3] : "";
     const int rounds = tier == "thorough" ? 200 : 20;
+    const int storm = tier == "thorough" ? 200000 : 20000;
     const int tcounts[] = {2, 4, 8};
     for (const auto& kv : dz::kinds()) {
         if (!only.empty() && only != kv.first) continue;
@@ -31,7 +32,7 @@ int main(int argc, char** argv) {
                 std::atomic<int> ok(0);
                 std::vector<std::thread> ts;
                 for (int t = 0; t < nt; ++t)
-                    ts.emplace_back([&S, &ok, seq, rounds]() {
+                    ts.emplace_back([&S, &ok, seq, rounds, storm]() {
                         bool good = true;
                         for (int r = 0; r < rounds; ++r) {
                             if (dz::fnv(S.probe()) != seq) good = false;
@@ -39,9 +40,13 @@ int main(int argc, char** argv) {
                             if (dz::fnv(c->probe()) != seq) good = false;
                             (void)c->xprobe(S);                             // elements of the shared object used through the copy
                         }                                                   // … and destruction of the copy
+                        // copy storm: many concurrent copy-constructions and destructions of the shared object (reference counts of
+                        // shared tables are only exercised by volume: a lost update needs two increments to meet)
+                        for (int r = 0; r < storm; ++r) { std::unique_ptr<dz::Box> c(S.copy()); }
                         if (good) ok++;
                     });
                 for (auto& t : ts) t.join();
+                if (dz::fnv(S.probe()) != seq) ok = -1;      // the shared object must still be intact after all copies are gone
                 printf("thr %s.%d %d %d = %llx %d/%d\n", kv.first.c_str(), p, nt, rounds, (unsigned long long)seq, ok.load(), nt);
                 fflush(stdout);
             }
